@@ -269,11 +269,14 @@ impl<F: Write + Seek> MiniAllocator<F> {
         let minifat_entries_per_sector = self.directory.sector_len() / 4;
         if self.minifat_start_sector == consts::END_OF_CHAIN {
             debug_assert!(self.minifat.is_empty());
-            self.minifat_start_sector =
-                self.directory.begin_chain(SectorInit::Fat)?;
+            // Only remember the new MiniFAT chain once the header has been
+            // updated; otherwise a retry after a failed write would skip the
+            // header update and the file would lose its MiniFAT.
+            let start_sector = self.directory.begin_chain(SectorInit::Fat)?;
             let mut header = self.directory.seek_within_header(60)?;
-            header.write_le_u32(self.minifat_start_sector)?;
+            header.write_le_u32(start_sector)?;
             header.write_le_u32(1)?;
+            self.minifat_start_sector = start_sector;
         } else {
             // The in-memory MiniFAT has its trailing free entries trimmed, so
             // the MiniFAT chain may already have room for the new entry; only
@@ -290,9 +293,11 @@ impl<F: Write + Seek> MiniAllocator<F> {
             }
         }
         // Add a new mini sector to the end of the mini stream and return it.
+        // The mini stream is extended first: if that fails, the MiniFAT must
+        // not already list a mini sector that the mini stream doesn't cover.
         let new_mini_sector = self.minifat.len() as u32;
-        self.set_minifat(new_mini_sector, value)?;
         self.append_mini_sector()?;
+        self.set_minifat(new_mini_sector, value)?;
         Ok(new_mini_sector)
     }
 
